@@ -1,5 +1,5 @@
 \* Generator B: every two-lookup program with one rule per lookup from FeaSem!Reduced (15 rules),
-\* flags {none, IgnoreMarks} x {0, IgnoreMarks}, 10 structure templates (FeaSem!Templates2).
+\* flags {none, IgnoreMarks} x {none, 0, IgnoreMarks}, 10 structure templates (FeaSem!Templates2).
 INIT InitB
 NEXT NextNone
 INVARIANT EmitCase
